@@ -653,6 +653,22 @@ def _eval_view(cases):
                 findings.append(dict(kind='property', key='iterator:visiting-order', detail=dict(real=real, logical=truth)))
             if real != core.ints(drv['iter']):
                 findings.append(dict(kind='model', key='view:iter-model-vs-compiled', detail=dict(real=real, model=core.ints(drv['iter']))))
+        # the compiled at_flat: hitmiss with the 1x...x1 template [1] computes res.flat[i] = (input.at_flat(i) == 1) and
+        # passes `input` through unnormalised; one call per address bit reconstructs the address at_flat(i) reads
+        if n and c['buf'] <= 4096:
+            nbits = max(1, int(c['buf'] - 1).bit_length())
+            got = np.zeros(n, np.int64)
+            one = np.ones((1,) * len(c['shape']), np.uint8)
+            for b in range(nbits):
+                bits = ((np.arange(c['buf']) >> b) & 1).astype(np.uint8)
+                vb = np.lib.stride_tricks.as_strided(bits[c['base']:], shape=tuple(c['shape']), strides=tuple(c['strides']),
+                                                     writeable=True)     # C-contiguous views then take the is_carray shortcut
+                got |= (np.asarray(mahotas.hitmiss(vb, one)).astype(np.int64).ravel() & 1) << b
+            real_af = [int(x) for x in got.tolist()]
+            if real_af != truth:
+                findings.append(dict(kind='property', key='at_flat:strided-input', detail=dict(real=real_af, logical=truth)))
+            if real_af != core.ints(drv['atflat']):
+                findings.append(dict(kind='model', key='view:atflat-model-vs-compiled', detail=dict(real=real_af, model=core.ints(drv['atflat']))))
         out.append(dict(findings=findings, nontrivial=n > 1, sig=lines[len(out)],
                         tags=dict(stream='view', ndim=len(c['shape']), neg=any(s < 0 for s in c['strides']),
                                   zero=any(s == 0 for s in c['strides']), carray=lines[len(out)].endswith('1'))))
